@@ -5,12 +5,29 @@ from . import world as W
 odml = W.odml
 
 
+# concrete Section types (the generator knows one type): exact, sub-typed, one whose leading part merely contains "stim"
+TYPES = ["t", "stim/t", "restim/x", "stim", "rec/stim/noise"]
+
+
 def mk(h, k, st):
     if k == "sec":
         return odml.Section(name=st["name"][h], type=st["type"][h])
     if k == "prop":
-        return odml.Property(name=st["name"][h], values=[1])
+        n = st.get("nvals", {}).get(h, 1)
+        return odml.Property(name=st["name"][h], values=list(range(1, n + 1)))
     return None
+
+
+def decorate(st):
+    """types and value counts derived from the tree (the generator's trees carry one type and no values)"""
+    from .clone import salt_of
+    salt = salt_of(st)
+    st = dict(st)
+    st["type"] = {h: (TYPES[(int(h[1:]) + salt) % len(TYPES)] if k == "sec" else t) for (h, k), t in
+                  zip(st["kind"].items(), [st["type"][h] for h in st["kind"]])}
+    st["nvals"] = {h: ((int(h[1:]) + salt) % 3 if k == "prop" else 0) for h, k in st["kind"].items()}
+    st["typeparts"] = {t: t.lower().split("/") for t in set(st["type"].values()) if isinstance(t, str)}
+    return st
 
 
 def tok_path(s):
@@ -41,6 +58,7 @@ def safe(fn, hid):
 
 
 def replay(st):
+    st = decorate(st)
     objs = W.build(st, mk=mk)
     hid = {id(o): h for h, o in objs.items() if o is not None}
     live = [h for h, k in st["kind"].items() if k in ("sec", "prop")]
@@ -71,15 +89,26 @@ def replay(st):
     for c in conts:
         for depth in [-1] + list(range(0, maxd + 2)):
             d = None if depth < 0 else depth
-            for ys in (False, True):
-                e = {"start": c, "depth": depth, "yieldself": ys}
-                e["secs"] = safe(lambda: list(objs[c].itersections(max_depth=d, yield_self=ys)), hid)
-                e["props"] = safe(lambda: list(objs[c].iterproperties(max_depth=d)), hid)
+            for ys, filt in ((False, "none"), (True, "none"), (False, "sel"), (True, "sel")):
+                # filt "sel": Sections / Properties named "a", value lists that are empty
+                e = {"start": c, "depth": depth, "yieldself": ys, "filt": filt}
+                kw = {} if filt == "none" else {"filter_func": lambda x: x.name == "a"}
+                kwv = {} if filt == "none" else {"filter_func": lambda v: len(v) == 0}
+                e["secs"] = safe(lambda: list(objs[c].itersections(max_depth=d, yield_self=ys, **kw)), hid)
+                e["props"] = safe(lambda: list(objs[c].iterproperties(max_depth=d, **kw)), hid)
                 try:
-                    vals = list(objs[c].itervalues(max_depth=d))
+                    vals = list(objs[c].itervalues(max_depth=d, **kwv))
+                    if filt == "sel":
+                        # empty lists cannot be told apart: compared by number (vals = handles of the value-less Properties in order)
+                        allp = safe(lambda: list(objs[c].iterproperties(max_depth=d)), hid)
+                        empt = [p for p in allp if isinstance(allp, list) and len(objs[p].values) == 0] if isinstance(allp, list) else []
+                        e["vals"] = empt if (len(vals) == len(empt) and all(v == [] for v in vals)) else ["?mismatch"]
+                        raise StopIteration
                     # a value list is identified by the property that owns an equal list, in order
                     e["vals"] = e["props"] if isinstance(e["props"], list) and len(vals) == len(e["props"]) and \
                         all(v == objs[p].values for v, p in zip(vals, e["props"])) else ["?mismatch"]
+                except StopIteration:
+                    pass
                 except Exception as ex:
                     e["vals"] = "raised:" + type(ex).__name__
                 for f in ("secs", "props", "vals"):
@@ -87,7 +116,7 @@ def replay(st):
                         e[f] = ["?" + str(e[f])]
                 iters.append(e)
     names = sorted(set(st["name"][h] for h in secs)) + ["zz"]
-    types = sorted(set(st["type"][h] for h in secs))
+    types = sorted(set(st["type"][h] for h in secs) | {"stim"})
     for c in conts:
         for key in ["none"] + names:
             for typ in ["none"] + types:
@@ -95,14 +124,15 @@ def replay(st):
                     continue
                 k, t = (None if key == "none" else key), (None if typ == "none" else typ)
                 for fa in (False, True):
-                    r = safe(lambda: objs[c].find(key=k, type=t, findAll=fa), hid)
-                    finds.append({"fn": "find", "start": c, "key": key, "type": typ, "all": fa, "res": norm(r),
-                                  "children": True, "siblings": False, "parents": False, "recursive": False})
+                    for sub in (False, True):
+                        r = safe(lambda: objs[c].find(key=k, type=t, findAll=fa, include_subtype=sub), hid)
+                        finds.append({"fn": "find", "start": c, "key": key, "type": typ, "all": fa, "res": norm(r), "sub": sub,
+                                      "children": True, "siblings": False, "parents": False, "recursive": False})
                     for (ch, si, pa, rec) in ((True, True, True, True), (True, False, False, True), (True, False, False, False),
                                               (False, True, False, True), (False, False, True, True), (False, False, True, False))[:: (1 if fa else 2)]:
                         r = safe(lambda: objs[c].find_related(key=k, type=t, children=ch, siblings=si, parents=pa,
                                                               recursive=rec, findAll=fa), hid)
-                        finds.append({"fn": "find_related", "start": c, "key": key, "type": typ, "all": fa, "res": norm(r),
+                        finds.append({"fn": "find_related", "start": c, "key": key, "type": typ, "all": fa, "res": norm(r), "sub": False,
                                       "children": ch, "siblings": si, "parents": pa, "recursive": rec})
     yield {"fam": "paths", "src": "model", "st": st, "paths": paths, "lookups": lookups, "rels": rels,
            "iters": iters, "finds": finds}
